@@ -58,11 +58,22 @@ Section ScaleFree.
     destruct us as [|u us]; [reflexivity|]. cbn [map combine fst snd]. rewrite rq_scale by assumption. now rewrite IH.
   Qed.
 
+  Lemma next_vec_scale G u : homogeneous G ->
+    next_vec F f0 fadd fmul feqb G (c *v u) = c *v next_vec F f0 fadd fmul feqb G u.
+  Proof.
+    intros HG. unfold next_vec. cbv zeta. rewrite HG, dot_scale_both.
+    destruct (feqb << G u, G u >> f0) eqn:E.
+    - apply feqb_spec in E. rewrite E. replace (fmul (fmul c c) f0) with f0 by ring.
+      rewrite (proj2 (feqb_spec f0 f0) eq_refl). reflexivity.
+    - rewrite feqb_false; [reflexivity|]. apply mul_nonzero; [apply mul_nonzero; exact Hc|].
+      intros H. apply feqb_spec in H. congruence.
+  Qed.
+
   Lemma apply_all_scale Gs : Forall homogeneous Gs -> forall us,
-    apply_all F Gs (map (vscale F fmul c) us) = map (vscale F fmul c) (apply_all F Gs us).
+    apply_all F f0 fadd fmul feqb Gs (map (vscale F fmul c) us) = map (vscale F fmul c) (apply_all F f0 fadd fmul feqb Gs us).
   Proof.
     unfold apply_all. induction 1 as [|G Gs HG _ IH]; intros us; [reflexivity|].
-    destruct us as [|u us]; [reflexivity|]. cbn [map combine fst snd]. rewrite HG. now rewrite IH.
+    destruct us as [|u us]; [reflexivity|]. cbn [map combine fst snd]. rewrite next_vec_scale by exact HG. now rewrite IH.
   Qed.
 
   Variable Gs : list (vec -> vec).
@@ -104,6 +115,68 @@ Section ScaleFree.
     rewrite ploop_scale. reflexivity.
   Qed.
 End ScaleFree.
+
+(* ---------------------------------------------------------------- no 0/0 (repaired code)
+   With non-zero start vectors the iteration never divides zero by zero: every vector of the state keeps <u,u> <> 0, because a vanishing
+   G u is not taken over.  Any field, any operators (not even linear), any stopping test, any budget. *)
+Section NeverNan.
+  Variable F : Type.
+  Variables (f0 : F) (fadd fmul fdiv : F -> F -> F).
+  Variable feqb : F -> F -> bool.
+  Variable close : F -> F -> bool.
+  Notation vec := (list F).
+  Notation "<< u , v >>" := (dot F f0 fadd fmul u v) (at level 0).
+  Variable Gs : list (vec -> vec).
+  Notation pstep' := (pstep F f0 fadd fmul fdiv feqb close Gs).
+  Notation ploop' := (ploop F f0 fadd fmul fdiv feqb close Gs).
+
+  Definition nonzero_state (us : list vec) : Prop := Forall (fun u => feqb << u, u >> f0 = false) us.
+
+  Lemma next_vec_nonzero G u : feqb << u, u >> f0 = false ->
+    feqb << next_vec F f0 fadd fmul feqb G u, next_vec F f0 fadd fmul feqb G u >> f0 = false.
+  Proof. intros H. unfold next_vec. cbv zeta. destruct (feqb << G u, G u >> f0) eqn:E; assumption. Qed.
+
+  Lemma apply_all_nonzero : forall Gl us, nonzero_state us -> nonzero_state (apply_all F f0 fadd fmul feqb Gl us).
+  Proof.
+    unfold apply_all. induction Gl as [|G Gl IH]; intros us H; [constructor|].
+    destruct us as [|u us]; [constructor|]. inversion H as [|? ? Hu Hus]; subst. cbn [combine map fst snd].
+    constructor; [apply next_vec_nonzero; exact Hu|apply IH; exact Hus].
+  Qed.
+
+  Lemma all_some_rq : forall Gl us, nonzero_state us ->
+    exists qs, all_some (map (fun Gu : (vec -> vec) * vec => rq F f0 fadd fmul fdiv feqb (fst Gu) (snd Gu)) (combine Gl us)) = Some qs.
+  Proof.
+    induction Gl as [|G Gl IH]; intros us H; [exists []; reflexivity|].
+    destruct us as [|u us]; [exists []; reflexivity|]. inversion H as [|? ? Hu Hus]; subst. cbn [combine map fst snd all_some].
+    unfold rq at 1, sdiv. rewrite Hu. destruct (IH us Hus) as [qs Hq]. rewrite Hq. eexists; reflexivity.
+  Qed.
+
+  Lemma pstep_never_fails st : nonzero_state (pu st) ->
+    match pstep' st with PFail _ => False | PStop _ _ => True | PNext _ _ st' => nonzero_state (pu st') end.
+  Proof.
+    intros H. unfold pstep. destruct (all_some_rq Gs (pu st) H) as [qs Hq]. rewrite Hq.
+    destruct (all_close F close qs (pold st)); [exact I|]. cbn [pu]. apply apply_all_nonzero. exact H.
+  Qed.
+
+  Lemma ploop_never_fails fuel : forall st last, nonzero_state (pu st) -> exists e, fst (ploop' fuel st last) = Some e.
+  Proof.
+    induction fuel as [|fuel IH]; intros st last H; [eexists; reflexivity|]. cbn [ploop].
+    pose proof (pstep_never_fails st H) as Hs. destruct (pstep' st) as [q| |q st']; [eexists; reflexivity|contradiction|].
+    destruct (IH st' q Hs) as [e He]. destruct (ploop' fuel st' q) as [r t]. cbn [fst] in *. eexists; exact He.
+  Qed.
+
+  Theorem operator_norm_never_nan v0s n : n <> 0 -> existsb (fun v => feqb << v, v >> f0) v0s = false ->
+    exists e t, operator_norm_sq F f0 fadd fmul fdiv feqb close Gs v0s n = PDone e t.
+  Proof.
+    intros Hn Hz. unfold operator_norm_sq. destruct (Nat.eqb n 0) eqn:En; [apply Nat.eqb_eq in En; contradiction|]. rewrite Hz.
+    assert (Hnz : nonzero_state v0s).
+    { unfold nonzero_state. apply Forall_forall. intros v Hv. destruct (feqb << v, v >> f0) eqn:E; [|reflexivity].
+      assert (X : existsb (fun v => feqb << v, v >> f0) v0s = true) by (apply existsb_exists; exists v; split; assumption). congruence. }
+    match goal with |- context [let (_, _) := ploop _ _ _ _ _ _ _ _ ?n' ?st ?l in _] =>
+      destruct (ploop_never_fails n' st l Hnz) as [e He]; destruct (ploop F f0 fadd fmul fdiv feqb close Gs n' st l) as [r t] end.
+    cbn [fst] in He. subst r. exists e, t. reflexivity.
+  Qed.
+End NeverNan.
 
 (* ================================================================ reals *)
 From Coq Require Import Reals Lra Psatz.
